@@ -898,7 +898,7 @@ func c06ComparesWithResolution(g *ssa.Function) bool {
 // anything other than its destination, identically on both backends" rests.
 func (c *Ctx) c06MoveGuards() {
 	c.rule("Z8", "move: a directory source reaches the rename and the folder worker only after a containment test between source and destination", 1)
-	c.rule("Z9", "move: the raw rename of the backend is only ever tried where the destination was found not to be an existing directory", 1)
+	c.rule("Z9", "move: the raw rename of the backend is only ever tried where the destination was found not to be an existing directory, nor spelt as one (trailing separator)", 2)
 	c.rule("Z10", "move: the folder worker removes its emptied source as a directory (non-recursive); it never deletes what it did not move", 1)
 	f := c.fn(fsPkgRel, "(*VFS).MoveWithContext")
 	mf := c.fn(fsPkgRel, "(*VFS).moveFolder")
@@ -997,7 +997,67 @@ func (c *Ctx) c06MoveGuards() {
 	if rename == nil {
 		c.ok("Z9", fname(f)+"/rename", c.pos(f.Pos()), "no raw rename in this function")
 	} else {
-		good := onBoolSide(rename, false, func(v ssa.Value) bool { return isDirOf(v, dest) })
+		// the condition is IsDir(dest), or something that is true at least whenever IsDir(dest) is (the directory test widened
+		// by further cases merged with `true`, e.g. "or spelt with a trailing separator, and created")
+		var atLeastIsDir func(v ssa.Value, d int) bool
+		atLeastIsDir = func(v ssa.Value, d int) bool {
+			if isDirOf(v, dest) {
+				return true
+			}
+			ph, ok := v.(*ssa.Phi)
+			if !ok || d > 3 {
+				return false
+			}
+			some := false
+			for _, e := range ph.Edges {
+				if b, isC := constBool(e); isC {
+					if !b {
+						return false
+					}
+					continue
+				}
+				if !atLeastIsDir(e, d+1) {
+					return false
+				}
+				some = true
+			}
+			return some
+		}
+		good := onBoolSide(rename, false, func(v ssa.Value) bool { return atLeastIsDir(v, 0) })
+		// … nor where the destination is spelt as a directory (trailing separator): the merge of the guard has a `true` edge
+		// that comes from the side where EndsWithPathSeparator(dest) answered true
+		spelt := false
+		for _, b := range f.Blocks {
+			ifi, ok := b.Instrs[len(b.Instrs)-1].(*ssa.If)
+			if !ok {
+				continue
+			}
+			v, ts := boolTest(ifi)
+			cl, isCall := v.(*ssa.Call)
+			if !isCall || !strings.HasSuffix(calleeFull(&cl.Call), "EndsWithPathSeparator") || len(cl.Call.Args) == 0 || resolveValue(cl.Call.Args[len(cl.Call.Args)-1]) != ssa.Value(dest) {
+				continue
+			}
+			trueSide := b.Succs[ts]
+			// the guard of the rename
+			for _, gb := range f.Blocks {
+				gi, ok := gb.Instrs[len(gb.Instrs)-1].(*ssa.If)
+				if !ok {
+					continue
+				}
+				gv, gts := boolTest(gi)
+				ph, isPhi := gv.(*ssa.Phi)
+				if !isPhi || !edgeDominates(gb, 1-gts, rename.Block()) {
+					continue
+				}
+				for i, e := range ph.Edges {
+					if bv, isC := constBool(e); isC && bv && (trueSide == ph.Block().Preds[i] || trueSide.Dominates(ph.Block().Preds[i])) {
+						spelt = true
+					}
+				}
+			}
+		}
+		c.check(spelt, "Z9", fname(f)+"/rename-spelt-as-directory", c.ipos(rename), "not renamed either where the destination is spelt as a directory (trailing separator)",
+			"the backend's Rename is tried with a destination that ends with a separator: Move(f, \"newdir/\") with newdir missing puts the file into newdir on the OS and turns newdir into a file on the in-memory backend")
 		c.check(good, "Z9", fname(f)+"/rename", c.ipos(rename), "renamed only where the destination is not an existing directory",
 			"the backend's Rename is tried although the destination may be an existing directory: the OS refuses (and the fall-back moves into the directory) but the in-memory backend replaces the directory by the source — Move(f, d) turns d into a file and orphans what d contained")
 	}
